@@ -1569,14 +1569,17 @@ var dscCorpus = map[string][]string{
 // witnesses and corpus of the second round: shapes the repaired tree handles (run only when the probes say so)
 var dscCorpus2 = map[string][]string{
 	// probe witnesses
-	"probe:rmdev":       {"msg 1 reply 0:0:n:- 1:1:n:- | " + dscNM, "msg 1 partial 0:-:r:- | "},
-	"probe:refresh":     {"msg 1 reply 0:0:n:- | " + dscNM, "msg 1 partial 0:0:a:- | 0:1:1:1:-:-"},
-	"probe:emptyAddr":   {"msg 1 reply 0:0:n:- | " + dscNM, "msg 1 partial -:1:a:- | ", "msg 1 partial -:1:r:- | ", "msg 1 reply 0:0:n:- -:1:n:- | " + dscNM, "msg 1 full 0:0:n:- -:1:n:- | " + dscNM},
-	"probe:noType":      {"msg 1 reply 0:0:n:- | " + dscNM, "msg 1 partial 1:-:a:- | ", "msg 1 reply 0:0:n:- 1:-:n:- | " + dscNM, "msg 1 full 0:0:n:- 1:-:n:- | " + dscNM},
-	"probe:featParts":   {"msg 1 reply 0:0:n:- 1:1:n:- | " + dscNM + " -:1:1:1:-:- 1:-:1:1:-:- 1:1:-:1:-:- 1:1:1:-:-:- -:-:1:1:-:- -:-:-:-:-:- 1:2:1:1:-:-"},
-	"probe:fnNoFn":      {"msg 1 reply 0:0:n:- 1:1:n:- | " + dscNM + " 1:1:1:1:-:-=4,1=1"},
-	"probe:unknownType": {"msg 1 reply 0:0:n:- 1:1:n:- | " + dscNM + " 1:1:7:1:-:1=1"},
-	"probe:noDevInfo":   {"msg 1 replyx 0:0:n:- 1:1:n:- | " + dscNM},
+	"probe:rmdev":         {"msg 1 reply 0:0:n:- 1:1:n:- | " + dscNM, "msg 1 partial 0:-:r:- | "},
+	"probe:rmdev-full":    {"msg 1 reply 0:0:n:- 1:1:n:- | " + dscNM, "msg 1 full 1:1:n:- | "},
+	"probe:refresh":       {"msg 1 reply 0:0:n:- | " + dscNM, "msg 1 partial 0:0:a:- | 0:1:1:1:-:-"},
+	"probe:refresh-empty": {"msg 1 reply 0:0:n:- | " + dscNM, "msg 1 partial 0:0:a:- | "},
+	"probe:refresh-reply": {"msg 1 reply 0:0:n:- | " + dscNM, "msg 1 reply 0:0:n:- 1:1:n:- | 0:1:1:1:-:-"},
+	"probe:emptyAddr":     {"msg 1 reply 0:0:n:- | " + dscNM, "msg 1 partial -:1:a:- | ", "msg 1 partial -:1:r:- | ", "msg 1 reply 0:0:n:- -:1:n:- | " + dscNM, "msg 1 full 0:0:n:- -:1:n:- | " + dscNM},
+	"probe:noType":        {"msg 1 reply 0:0:n:- | " + dscNM, "msg 1 partial 1:-:a:- | ", "msg 1 reply 0:0:n:- 1:-:n:- | " + dscNM, "msg 1 full 0:0:n:- 1:-:n:- | " + dscNM},
+	"probe:featParts":     {"msg 1 reply 0:0:n:- 1:1:n:- | " + dscNM + " -:1:1:1:-:- 1:-:1:1:-:- 1:1:-:1:-:- 1:1:1:-:-:- -:-:1:1:-:- -:-:-:-:-:- 1:2:1:1:-:-"},
+	"probe:fnNoFn":        {"msg 1 reply 0:0:n:- 1:1:n:- | " + dscNM + " 1:1:1:1:-:-=4,1=1"},
+	"probe:unknownType":   {"msg 1 reply 0:0:n:- 1:1:n:- | " + dscNM + " 1:1:7:1:-:1=1"},
+	"probe:noDevInfo":     {"msg 1 replyx 0:0:n:- 1:1:n:- | " + dscNM},
 	// [0] listed as removed between other entries: it stays, the entries before AND after it are processed with
 	// the full cascade and events
 	"devinfo:removed-in-the-middle": {
@@ -1680,17 +1683,29 @@ func dscProbe(r *h.Report, name, key string, witnesses ...string) bool {
 	return on
 }
 
-// a capability of the tree under test: its witness neither panics nor loses the device-information entity
-func dscProbeCap(r *h.Report, name, witness string) bool {
-	q := h.Quiet()
-	runDscHistory(q, nil, dscCorpus2[witness], nil)
+// a capability of the tree under test: its witnesses neither panic nor lose the device-information entity.
+// Losing the device-information entity contradicts the SPEC ([0] is never removed, never loses feature 0): that is
+// reported as a spec failure with the witness; a panic on a malformed shape is C05's business and only narrows the
+// generator's domain.
+func dscProbeCap(r *h.Report, name string, witnesses ...string) bool {
 	bad := ""
-	for _, sf := range q.SpecFailures {
-		if sf.Key == "C06/panic" || sf.Key == "C06/device-information-lost" {
-			bad = sf.Detail
+	var badOps []string
+	for _, wn := range witnesses {
+		q := h.Quiet()
+		runDscHistory(q, nil, dscCorpus2[wn], nil)
+		for _, sf := range q.SpecFailures {
+			if (sf.Key == "C06/panic" || sf.Key == "C06/device-information-lost") && bad == "" {
+				bad, badOps = sf.Detail, sf.Ops
+				if sf.Key == "C06/device-information-lost" {
+					r.SpecFail(sf.Key, sf.Ops, sf.Detail)
+				}
+			}
 		}
 	}
-	r.SetFlag(name, bad != "", dscCorpus2[witness], "on = the pinned behaviour (panic / device information lost): this shape is not generated and belongs to C05. "+bad)
+	if bad == "" {
+		badOps = dscCorpus2[witnesses[0]]
+	}
+	r.SetFlag(name, bad != "", badOps, "on = the pinned behaviour (panic / device information lost): this shape is not generated. "+bad)
 	return bad == ""
 }
 
@@ -1699,8 +1714,8 @@ func dscProbeAll(r *h.Report) []string {
 	whole := dscProbe(r, "wholeMessage", "C06/mixed-add-remove-notification", "mixed:added-then-removed", "mixed:removed-then-added", "mixed:full")
 	bindent := dscProbe(r, "bindEntityOnly", "C06/cascade-binding-other-peer", "cascade:binding-other-peer")
 	c := dscCaps{
-		rmDev:       dscProbeCap(r, "removesDevInfo", "probe:rmdev"),
-		refresh:     dscProbeCap(r, "refreshUnguarded", "probe:refresh"),
+		rmDev:       dscProbeCap(r, "removesDevInfo", "probe:rmdev", "probe:rmdev-full"),
+		refresh:     dscProbeCap(r, "refreshUnguarded", "probe:refresh", "probe:refresh-empty", "probe:refresh-reply"),
 		emptyAddr:   dscProbeCap(r, "panics:emptyEntityAddress", "probe:emptyAddr"),
 		noType:      dscProbeCap(r, "panics:newEntityWithoutType", "probe:noType"),
 		featParts:   dscProbeCap(r, "panics:featureElementParts", "probe:featParts"),
